@@ -34,25 +34,26 @@ theorem C09_subscribers_independent (subs : List (Sub ι μ)) (ms : List (SMove 
   rfl
 
 /-- Every subscriber of a multi-subscriber system, whatever the others are and do.  Subscriber `k`
-subscribed at view `s0` with seed list `sd` (any list that is a well-formed history from nothing and
-folds to `s0` — `Collection.Pull` sends one ADD per stored item, sorted by id); the other subscribers
+subscribed at view `s0` with seed list `sd` (any list that is a well-formed history from a base view
+`b` and folds to `s0`: `b` = nothing and one ADD per stored item, sorted by id, for a seeded
+`Collection.Pull`; `b = s0` and no seeds for `WithUpdatesOnly`); the other subscribers
 are in ARBITRARY states.  For every well-formed sent stream and every interleaving (writes arriving
 while seeds are still being handed on included): `k` has accepted every sent event (the bus never waits
 for it); what its Pull goroutine handed on, then the seeds still to come, the event in hand and its
-pending changes fold FROM NOTHING to the view of everything sent; the stream handed on is a well-formed
+pending changes fold from the base view to the view of everything sent; the stream handed on is a well-formed
 history (old values chain per id, seeds first); and once nothing is left to come it folds to the
 current view. -/
-theorem C09_every_subscriber_view (s0 : View ι μ) (sd : List (Change ι μ))
-    (hsd : WFHist (View.empty : View ι μ) sd) (hs0 : fold sd (View.empty : View ι μ) = s0)
+theorem C09_every_subscriber_view (b s0 : View ι μ) (sd : List (Change ι μ))
+    (hsd : WFHist b sd) (hs0 : fold sd b = s0)
     (subs : List (Sub ι μ)) (w : Option ι) (k : Nat) (hk : subs[k]? = some (Sub.init w sd))
     (ms : List (SMove (Change ι μ))) (hw : WFHist s0 (sent ms))
     (s : Sub ι μ) (hs : (sysRun subs ms)[k]? = some s) :
     s.q.s.p.received = sent ms ∧
-    fold (s.q.s.out ++ s.q.s.seeds ++ s.q.s.p.inHand.toList ++ s.q.s.p.st.pending) (View.empty : View ι μ)
+    fold (s.q.s.out ++ s.q.s.seeds ++ s.q.s.p.inHand.toList ++ s.q.s.p.st.pending) b
         = fold (sent ms) s0 ∧
-    WFHist (View.empty : View ι μ) s.q.s.out ∧
+    WFHist b s.q.s.out ∧
     (s.q.s.seeds = [] → s.q.s.p.inHand = none → s.q.s.p.st.pending = [] →
-        fold s.q.s.out (View.empty : View ι μ) = fold (sent ms) s0) := by
+        fold s.q.s.out b = fold (sent ms) s0) := by
   rw [sysRun_proj, hk] at hs
   simp only [Option.map_some, Option.some.injEq] at hs
   subst hs
@@ -73,16 +74,17 @@ accepted; (2) what the consumer received followed by the value in PullID's hand 
 values of the watched id's changes in the stream Pull handed on (seeds included), in order, up to the
 first REMOVE — and the stream has ended iff such a REMOVE was handed on; (3) if it ended the subscriber
 was shown a REMOVE of the item; (4) if it is live and nothing is in flight anywhere, the item's current
-value is exactly the last value the consumer received (absent iff it received nothing). -/
-theorem C09_pullid_stage (i : ι) (s0 : View ι μ) (sd : List (Change ι μ))
-    (hsd : WFHist (View.empty : View ι μ) sd) (hs0 : fold sd (View.empty : View ι μ) = s0)
+value is exactly the last value the consumer received (or, if it received nothing, what the base view
+`b` holds: absent for a seeded subscription). -/
+theorem C09_pullid_stage (i : ι) (b s0 : View ι μ) (sd : List (Change ι μ))
+    (hsd : WFHist b sd) (hs0 : fold sd b = s0)
     (ms : List (QMove (Change ι μ))) (hw : WFHist s0 (qinputs ms)) :
     let c := (subRun (Sub.init (some i) sd) ms).q
     c.s.p.received = qinputs ms ∧
     pullIdScan i c.s.out = (c.out ++ c.hand2.toList, c.ended) ∧
     (c.ended = true → ∃ d ∈ c.s.out, d.id = i ∧ d.kind = .remove) ∧
     (c.ended = false → c.hand2 = none → c.s.seeds = [] → c.s.p.inHand = none → c.s.p.st.pending = [] →
-        fold (qinputs ms) s0 i = c.out.getLast?) := by
+        fold (qinputs ms) s0 i = (c.out.getLast?).or (b i)) := by
   have hrec : (subRun (Sub.init (some i) sd : Sub ι μ) ms).q.s.p.received = qinputs ms := by
     rw [subRun_received]; rfl
   have hq : QInv i (subRun (Sub.init (some i) sd : Sub ι μ) ms).q := subRun_QInv rfl (QInv_init i sd) ms
@@ -104,7 +106,7 @@ theorem C09_pullid_stage (i : ι) (s0 : View ι μ) (sd : List (Change ι μ))
     have hlive : (pullIdScan i (subRun (Sub.init (some i) sd : Sub ι μ) ms).q.s.out).2 = false := by
       rw [hq.scan]; exact he
     rw [fold_of_live_scan i _ _ hlive, hq.scan, h2]
-    simp [View.empty]
+    simp
 
 /-- `Value.Pull` without backpressure exactly as coded — DropExcess slot ▸ forwarder (response filter
 `F`, then the equivalence `E` against the FILTERED value last sent, then `last = change.Value`) ▸
@@ -175,6 +177,99 @@ theorem C09_backpressure_lossless {α : Type} (ms : List (BMove α)) (es : List 
         rw [ih _ (by simp [bstep, hc])]
         simp [bstep, hc]
     simpa [BCfg.init] using keep es BCfg.init rfl
+
+/-- Eventually the most recent change: from ANY state a `Collection.Pull` subscriber of a
+multi-subscriber system has reached (any well-formed sent stream, any interleaving, the other
+subscribers arbitrary), a consumer that now receives `backlog` more times — the number of seeds,
+pending changes and the event in hand still on their way; no further write — has nothing left to come,
+and what it received in total is a well-formed history that folds from the base view to the current view:
+it holds the most recent value of every id. -/
+theorem C09_eventually_current_view (b s0 : View ι μ) (sd : List (Change ι μ))
+    (hsd : WFHist b sd) (hs0 : fold sd b = s0)
+    (subs : List (Sub ι μ)) (k : Nat) (hk : subs[k]? = some (Sub.init none sd))
+    (ms : List (SMove (Change ι μ))) (hw : WFHist s0 (sent ms))
+    (s : Sub ι μ) (hs : (sysRun subs ms)[k]? = some s) :
+    let s' := subRun s (drainMoves s.q.s.backlog)
+    s'.q.s.p.received = sent ms ∧
+    s'.q.s.seeds = [] ∧ s'.q.s.p.inHand = none ∧ s'.q.s.p.st.pending = [] ∧
+    WFHist b s'.q.s.out ∧
+    fold s'.q.s.out b = fold (sent ms) s0 := by
+  rw [sysRun_proj, hk] at hs
+  simp only [Option.map_some, Option.some.injEq] at hs
+  subst hs
+  intro s'
+  have hs' : s' = subRun (Sub.init none sd : Sub ι μ)
+      (proj k ms ++ drainMoves (subRun (Sub.init none sd : Sub ι μ) (proj k ms)).q.s.backlog) := by
+    rw [subRun_append]
+  have hin : qinputs (proj k ms ++ drainMoves (α := Change ι μ)
+      (subRun (Sub.init none sd : Sub ι μ) (proj k ms)).q.s.backlog) = sent ms := by
+    rw [qinputs_append, qinputs_drainMoves, qinputs_proj, List.append_nil]
+  have hrec : s'.q.s.p.received = sent ms := by
+    rw [hs', subRun_received, hin]; rfl
+  have hinv : SInv s0 sd s'.q.s := by
+    rw [hs']
+    apply subRun_SInv
+    · exact SInv_init s0 sd
+    · rw [hin]; simpa [Sub.init, QCfg.init, SCfg.init, PCfg.init] using hw
+  have hb : s'.q.s.backlog = 0 := by
+    show (subRun _ (drainMoves _)).q.s.backlog = 0
+    rw [subRun_drain_backlog _ (by rw [subRun_watch]; rfl)]
+    omega
+  obtain ⟨h1, h2, h3⟩ := backlog_zero hb
+  obtain ⟨_, hwfo, hquiet⟩ := hinv.facts hsd hs0
+  rw [hrec] at hquiet
+  exact ⟨hrec, h1, h2, h3, hwfo, hquiet h1 h2 h3⟩
+
+/-- Eventually the most recent value: from ANY state a lossy `Value.Pull` subscriber has reached (any
+equivalence, any filter, any interleaving of writes / take / deliver), a consumer that now receives
+twice more (no further write) leaves nothing in the slot or in hand, and the last value it received is
+the filtered most recent value, or the equivalence equates the two. -/
+theorem C09_value_pull_drains {α : Type} (E : Option α → α → Bool) (F : α → α)
+    (cur : Option α) (ms : List (PMove α)) :
+    let c := vrunF E F (VCfg.subscribed F cur) (ms ++ [.take, .deliver, .take, .deliver])
+    c.slot = none ∧ c.inHand = none ∧ c.received = cur.toList ++ pinputs ms ∧
+    ∀ r, c.received.getLast? = some r →
+        c.delivered.getLast? = some (F r) ∨ E c.delivered.getLast? (F r) = true := by
+  intro c
+  have hq : c.slot = none ∧ c.inHand = none := by
+    show (vrunF E F _ (ms ++ _)).slot = none ∧ (vrunF E F _ (ms ++ _)).inHand = none
+    rw [vrunF_append]
+    exact vdrain_quiet E F _
+  obtain ⟨hr, _, _, hl⟩ := C09_value_pull_eventually_latest E F cur (ms ++ [.take, .deliver, .take, .deliver])
+  refine ⟨hq.1, hq.2, ?_, hl hq.1 hq.2⟩
+  rw [pinputs_append_drain] at hr
+  exact hr
+
+/-- Eventually, for `Collection.PullID`: from ANY state a PullID subscriber has reached (any well-formed
+sent stream, any interleaving), a consumer that now receives `backlog` more times (rounds of take /
+hand / deliver; no further write) either sees the stream end — and then it was shown a REMOVE of the
+item — or has nothing left to come and the last value it received is the item's current value. -/
+theorem C09_pullid_eventually (i : ι) (b s0 : View ι μ) (sd : List (Change ι μ))
+    (hsd : WFHist b sd) (hs0 : fold sd b = s0)
+    (ms : List (QMove (Change ι μ))) (hw : WFHist s0 (qinputs ms)) :
+    let n := (subRun (Sub.init (some i) sd) ms).q.backlog
+    let c := (subRun (Sub.init (some i) sd) (ms ++ qdrainMoves n)).q
+    c.s.p.received = qinputs ms ∧
+    ((c.ended = true ∧ ∃ d ∈ c.s.out, d.id = i ∧ d.kind = .remove) ∨
+     (c.ended = false ∧ c.hand2 = none ∧ c.s.seeds = [] ∧ c.s.p.inHand = none ∧ c.s.p.st.pending = [] ∧
+        fold (qinputs ms) s0 i = (c.out.getLast?).or (b i))) := by
+  intro n c
+  have hin : qinputs (ms ++ qdrainMoves (α := Change ι μ) n) = qinputs ms := by
+    rw [qinputs_append, qinputs_qdrainMoves, List.append_nil]
+  obtain ⟨h1, _, h3, h4⟩ := C09_pullid_stage i b s0 sd hsd hs0 (ms ++ qdrainMoves n) (by rw [hin]; exact hw)
+  rw [hin] at h1 h4
+  refine ⟨h1, ?_⟩
+  have hc : c = qrounds i n (subRun (Sub.init (some i) sd : Sub ι μ) ms).q := by
+    show (subRun _ (ms ++ _)).q = _
+    rw [subRun_append, subRun_qdrain _ (by rw [subRun_watch]; rfl)]
+  rcases qrounds_drain i n (subRun (Sub.init (some i) sd : Sub ι μ) ms).q (Nat.le_refl _) with he | hb
+  · rw [← hc] at he
+    exact Or.inl ⟨he, h3 he⟩
+  · rw [← hc] at hb
+    obtain ⟨q1, q2, q3, q4⟩ := qbacklog_zero hb
+    cases he : c.ended with
+    | true => exact Or.inl ⟨rfl, h3 he⟩
+    | false => exact Or.inr ⟨rfl, q1, q2, q3, q4, h4 he q1 q2 q3 q4⟩
 
 /-! ### non-vacuity -/
 
